@@ -40,21 +40,22 @@ type world struct {
 	pool [][]byte // extra valid txs (bytes) for the mempool pre-fill
 
 	// crafted transactions (built at N, before B)
-	p, q          ck.Key
-	balP          int64
-	expired, far  *transaction.Transaction
-	cV            *transaction.Transaction // ordinary tx by p (overpaying network fee)
-	cTlow, cThigh *transaction.Transaction // by p, Conflicts(cV), network fee below / above cV's
-	cTother       *transaction.Transaction // by q, Conflicts(cV)
-	onchainRev    *transaction.Transaction // by p, Conflicts(an on-chain tx)
-	over1, over2  *transaction.Transaction // by p, each affordable, together above the balance
-	under         *transaction.Transaction // by p, fees above the balance
-	overLimit     *transaction.Transaction // by p, affordable, system fee above MaxBlockSystemFee
-	extraOK       *transaction.Transaction // by q, plain valid transfer not in B
-	oc            map[string]*ocCase       // per on-chain-Conflicts catalogue entry (setup block only)
-	vals3         ck.Actor                 // multisig that has to sign block N+3 (after B2)
-	rootB2        util.Uint256             // state root after B2
-	marker        util.Uint256             // on-chain tx of the setup block with a still valid ValidUntilBlock
+	p, q                                ck.Key
+	balP                                int64
+	expired, far                        *transaction.Transaction
+	nvbFuture, highNoCommittee, dupAttr *transaction.Transaction // attribute rules broken in exactly one respect
+	cV                                  *transaction.Transaction // ordinary tx by p (overpaying network fee)
+	cTlow, cThigh                       *transaction.Transaction // by p, Conflicts(cV), network fee below / above cV's
+	cTother                             *transaction.Transaction // by q, Conflicts(cV)
+	onchainRev                          *transaction.Transaction // by p, Conflicts(an on-chain tx)
+	over1, over2                        *transaction.Transaction // by p, each affordable, together above the balance
+	under                               *transaction.Transaction // by p, fees above the balance
+	overLimit                           *transaction.Transaction // by p, affordable, system fee above MaxBlockSystemFee
+	extraOK                             *transaction.Transaction // by q, plain valid transfer not in B
+	oc                                  map[string]*ocCase       // per on-chain-Conflicts catalogue entry (setup block only)
+	vals3                               ck.Actor                 // multisig that has to sign block N+3 (after B2)
+	rootB2                              util.Uint256             // state root after B2
+	marker                              util.Uint256             // on-chain tx of the setup block with a still valid ValidUntilBlock
 
 	B     *block.Block
 	Braw  []byte
@@ -383,6 +384,9 @@ func buildWorld(c Case) (*world, error) {
 	w.balP = bc.GetUtilityTokenBalance(w.p.Hash, util.Uint160{}).Int64()
 	w.expired = w.craft(w.p, w.q.Hash, 0xC0610001, N, nil, -1, -1, 0)
 	w.far = w.craft(w.p, w.q.Hash, 0xC0610002, N+w.maxInc+1, nil, -1, -1, 0)
+	w.nvbFuture = w.craft(w.p, w.q.Hash, 0xC061000D, N+3, []transaction.Attribute{{Type: transaction.NotValidBeforeT, Value: &transaction.NotValidBefore{Height: N + 2}}}, -1, -1, 0)
+	w.highNoCommittee = w.craft(w.p, w.q.Hash, 0xC061000E, N+1, []transaction.Attribute{{Type: transaction.HighPriority}}, -1, -1, 0)
+	w.dupAttr = w.craft(w.p, w.q.Hash, 0xC061000F, N+1, []transaction.Attribute{{Type: transaction.HighPriority}, {Type: transaction.HighPriority}}, -1, -1, 0)
 	{
 		dummy := w.craft(w.p, w.q.Hash, 0xC0610004, N+1, conflictsAttr(util.Uint256{1}), -1, -1, 0)
 		feeT := dummy.NetworkFee
